@@ -1,20 +1,4 @@
 package motion
 
-var zzEntries = map[string]func(){
-	"ZZ_C19_init":    ZZ_C19_init,
-	"ZZ_C19_ops":     ZZ_C19_ops,
-	"ZZ_C19_observe": ZZ_C19_observe,
-	"ZZ_C19_bmc":     ZZ_C19_bmc,
-	"ZZ_MP_step":     ZZ_MP_step,
-	"ZZ_MP_bmc":      ZZ_MP_bmc,
-	"ZZ_AUX_bmc":     ZZ_AUX_bmc,
-	"ZZ_AUX_step":    ZZ_AUX_step,
-	"ZZ_C07_bmc":     ZZ_C07_bmc,
-	"ZZ_C08_bmc":     ZZ_C08_bmc,
-	"ZZ_C09_bmc":     ZZ_C09_bmc,
-	"ZZ_C15_update":  ZZ_C15_update,
-	"ZZ_C15_clamp":   ZZ_C15_clamp,
-	"ZZ_C15_detect":  ZZ_C15_detect,
-	"ZZ_C15_sites":   ZZ_C15_sites,
-	"ZZ_C05_comp":    ZZ_C05_comp,
-}
+// zzEntries: replay entry points by name; each harness file registers its own in an init().
+var zzEntries = map[string]func(){}
